@@ -125,7 +125,7 @@ theorem sch_cancelGroupMetas (p : Pool) (g : String) : Sch p (p.cancelGroupMetas
   simp only
   refine Sch.trans (sch_foldl (fun q m => q.metaCancel m) (fun q m => sch_metaCancel q m)
     (indicesWhere p.reqs fun r => r.inRunning && r.group == g) p) ?_
-  refine sch_mapReqs _ _ (fun (r : Req) => if r.inRunning && r.group == g then { r with inRunning := false, inCancelled := true } else r)
+  refine sch_mapReqs _ _ (fun (r : Req) => if r.inRunning && r.group == g then { r with inRunning := false, inCancelled := true, everCancelled := true } else r)
     ?_ rfl rfl rfl rfl
   intro r; split <;> rfl
 
